@@ -136,7 +136,11 @@ Lemma lv_unfold k ft now :
       Ok (lv_ph6 (lv_k5 k4 sb' a) a (lv_cw k3) (lv_resent k4), f_next a, flush_buffer (f_st a))
     end end end
   end.
-Proof. reflexivity. Qed.
+Proof.
+  (* plain `reflexivity` does not terminate; after unfolding both sides are syntactically equal *)
+  unfold flush, lv_ph1, lv_ph3, lv_ph4, lv_ph5, lv_k4, lv_k5, lv_ph6, lv_cw, lv_resent, lv_hdr, lv_h0, lv_ph2.
+  cbv zeta. reflexivity.
+Qed.
 
 Lemma lv_invert k ft now k' nx o :
   flush k ft now = Ok (k', nx, o) ->
@@ -237,4 +241,604 @@ Proof.
     destruct (cwnd (set_cc k5 s2 (rmt_wnd k5) w2 i2) <? 1); [|do 3 eexists; reflexivity].
     rewrite lv_set_cc_cc. do 3 eexists; reflexivity.
   - exists (ssthresh k5), (cwnd k5), (incr k5). symmetry. apply lv_set_cc_id.
+Qed.
+
+(* ------------------------------------------------------------------ *)
+(* 2. stage tracking                                                   *)
+(* ------------------------------------------------------------------ *)
+(* the pending datagram is a concatenation of encoded segments *)
+Definition lv_cur_ok (st : stage) : Prop := exists segs, cur st = concat (map encode_seg segs).
+
+(* segment s has been written into the stage: it sits in the pending datagram or in a finished one *)
+Definition lv_has (st : stage) (s : seg) : Prop :=
+  (exists segs, cur st = concat (map encode_seg segs) /\ In s segs) \/
+  (exists d segs, In d (outs st) /\ d = concat (map encode_seg segs) /\ In s segs).
+
+Definition lv_ext (st st' : stage) : Prop := lv_cur_ok st' /\ forall s, lv_has st s -> lv_has st' s.
+
+(* segment s is on the wire, inside a datagram made of whole segments *)
+Definition lv_emits (o : list bytes) (s : seg) : Prop :=
+  exists d segs, In d o /\ d = concat (map encode_seg segs) /\ In s segs.
+
+Lemma lv_stage0_ok : lv_cur_ok (mkStage [] []).
+Proof. exists []. reflexivity. Qed.
+
+Lemma lv_ext_refl st : lv_cur_ok st -> lv_ext st st.
+Proof. intros H. split; [exact H|]. intros s Hs; exact Hs. Qed.
+
+Lemma lv_ext_trans a b c : lv_ext a b -> lv_ext b c -> lv_ext a c.
+Proof. intros (_ & H1) (Hc & H2). split; [exact Hc|]. intros s Hs. apply H2, H1, Hs. Qed.
+
+Lemma lv_space_ext k st space : lv_cur_ok st -> lv_ext st (make_space k st space).
+Proof.
+  intros Hc. unfold make_space. destruct (blen (cur st) + space >? mtu k).
+  - split; [exists []; reflexivity|]. intros s [(segs & Hs & Hi)|(d & segs & Hd & He & Hi)].
+    + right. exists (cur st), segs. cbn [outs]. split; [left; reflexivity|]. split; assumption.
+    + right. exists d, segs. cbn [outs]. split; [right; exact Hd|]. split; assumption.
+  - apply lv_ext_refl. exact Hc.
+Qed.
+
+Lemma lv_write_ext k st s st' :
+  lv_cur_ok st -> stage_write k st s = Ok st' -> lv_ext st st' /\ lv_has st' s.
+Proof.
+  intros (segs & Hc) Hw. unfold stage_write in Hw.
+  destruct (blen (cur st) + c_IKCP_OVERHEAD + blen (s_data s) >? buflen k); [discriminate|].
+  inversion Hw; subst st'. clear Hw.
+  assert (Happ : forall l, cur st = concat (map encode_seg l) ->
+                           cur st ++ encode_seg s = concat (map encode_seg (l ++ [s]))).
+  { intros l Hl. rewrite map_app, concat_app. cbn [map concat]. rewrite app_nil_r, Hl. reflexivity. }
+  split; [split|].
+  - exists (segs ++ [s]). cbn [cur]. apply Happ. exact Hc.
+  - intros x [(l & Hl & Hi)|(d & l & Hd & He & Hi)].
+    + left. exists (l ++ [s]). cbn [cur]. split; [apply Happ; exact Hl|].
+      apply in_or_app. left; exact Hi.
+    + right. exists d, l. cbn [outs]. split; [exact Hd|]. split; assumption.
+  - left. exists (segs ++ [s]). cbn [cur]. split; [apply Happ; exact Hc|].
+    apply in_or_app. right. left; reflexivity.
+Qed.
+
+(* make room, then write *)
+Lemma lv_space_write_ext k st space s st' :
+  lv_cur_ok st -> stage_write k (make_space k st space) s = Ok st' -> lv_ext st st' /\ lv_has st' s.
+Proof.
+  intros Hc Hw. pose proof (lv_space_ext k st space Hc) as H1.
+  destruct (lv_write_ext k _ s st' (proj1 H1) Hw) as (H2 & H3).
+  split; [eapply lv_ext_trans; eassumption|exact H3].
+Qed.
+
+Lemma lv_enc_in_pos s segs : In s segs -> blen (concat (map encode_seg segs)) > 0.
+Proof.
+  induction segs as [|e t IH]; intros Hi; [contradiction|].
+  cbn [map concat]. rewrite blen_app. pose proof (blen_nonneg (concat (map encode_seg t))).
+  rewrite lv_encode_len. pose proof (blen_nonneg (s_data e)). unfold c_IKCP_OVERHEAD. lia.
+Qed.
+
+Lemma lv_buffer_emits st s : lv_has st s -> lv_emits (flush_buffer st) s.
+Proof.
+  unfold flush_buffer. intros [(segs & Hs & Hi)|(d & segs & Hd & He & Hi)].
+  - exists (cur st), segs. split; [|split; assumption].
+    apply in_rev. rewrite rev_involutive.
+    pose proof (lv_enc_in_pos s segs Hi) as Hp. rewrite <- Hs in Hp.
+    destruct (blen (cur st) >? 0) eqn:E; lv_b2z; [left; reflexivity|lia].
+  - exists d, segs. split; [|split; assumption].
+    apply in_rev. rewrite rev_involutive.
+    destruct (blen (cur st) >? 0); [right; exact Hd|exact Hd].
+Qed.
+
+(* ---- phase 1 ---- *)
+(* an ACK written with the header template h for the pair (sn, ts) *)
+Definition lv_ackseg (h : seg) (sn ts : Z) (s : seg) : Prop :=
+  s_conv s = s_conv h /\ s_cmd s = s_cmd h /\ s_wnd s = s_wnd h /\ s_una s = s_una h /\
+  s_sn s = sn /\ s_ts s = ts.
+
+Definition lv_same_hdr (h h' : seg) : Prop :=
+  s_conv h' = s_conv h /\ s_cmd h' = s_cmd h /\ s_frg h' = s_frg h /\ s_wnd h' = s_wnd h /\ s_una h' = s_una h.
+
+Lemma lv_ackseg_hdr h h' sn ts s : lv_same_hdr h h' -> lv_ackseg h' sn ts s -> lv_ackseg h sn ts s.
+Proof.
+  intros (A1 & A2 & A3 & A4 & A5) (B1 & B2 & B3 & B4 & B5 & B6).
+  unfold lv_ackseg. rewrite B1, B2, B3, B4. repeat split; assumption.
+Qed.
+
+Lemma lv_acks_track k : forall al h st h' st',
+  flush_acks k h st al = Ok (h', st') -> lv_cur_ok st ->
+  lv_ext st st' /\ lv_same_hdr h h' /\
+  (forall sn ts, In (sn, ts) al -> itimediff sn (rcv_nxt k) >= 0 ->
+                 exists s, lv_has st' s /\ lv_ackseg h sn ts s) /\
+  (forall sn ts l, al = l ++ [(sn, ts)] -> exists s, lv_has st' s /\ lv_ackseg h sn ts s).
+Proof.
+  induction al as [|[sn0 ts0] t IH]; intros h st h' st' Hf Hc.
+  - cbn [flush_acks] in Hf. inversion Hf; subst h' st'.
+    split; [apply lv_ext_refl; exact Hc|]. split; [repeat split|].
+    split; [intros sn ts []|]. intros sn ts l Hl. destruct l; discriminate.
+  - cbn [flush_acks] in Hf.
+    destruct ((itimediff sn0 (rcv_nxt k) >=? 0) || match t with [] => true | _ :: _ => false end) eqn:E.
+    + set (h1 := mkSeg (s_conv h) (s_cmd h) (s_frg h) (s_wnd h) ts0 sn0 (s_una h) 0 0 0 0 0 []) in *.
+      destruct (stage_write k (make_space k st c_IKCP_OVERHEAD) h1) as [st2|w] eqn:Ew; [|discriminate].
+      destruct (lv_space_write_ext k st c_IKCP_OVERHEAD h1 st2 Hc Ew) as (Hx & Hh1).
+      destruct (IH h1 st2 h' st' Hf (proj1 Hx)) as (Hx2 & Hsh & Hall & Hlast).
+      assert (Hs1 : lv_same_hdr h h1) by (unfold lv_same_hdr, h1; lv_segf; repeat split).
+      assert (Hw1 : exists s, lv_has st' s /\ lv_ackseg h sn0 ts0 s).
+      { exists h1. split; [apply (proj2 Hx2); exact Hh1|]. unfold lv_ackseg, h1; lv_segf. repeat split. }
+      split; [eapply lv_ext_trans; eassumption|].
+      split.
+      { destruct Hs1 as (A1 & A2 & A3 & A4 & A5). destruct Hsh as (B1 & B2 & B3 & B4 & B5).
+        unfold lv_same_hdr. rewrite B1, B2, B3, B4, B5. repeat split; assumption. }
+      split.
+      * intros sn ts [Heq|Hin] Hge.
+        { inversion Heq; subst sn ts. exact Hw1. }
+        destruct (Hall sn ts Hin Hge) as (s & Hs & Ha). exists s. split; [exact Hs|].
+        eapply lv_ackseg_hdr; eassumption.
+      * intros sn ts l Hl. destruct l as [|p l'].
+        { cbn [app] in Hl. inversion Hl; subst sn ts. exact Hw1. }
+        cbn [app] in Hl. inversion Hl as [[Hp Ht]].
+        destruct (Hlast sn ts l' Ht) as (s & Hs & Ha). exists s. split; [exact Hs|].
+        eapply lv_ackseg_hdr; eassumption.
+    + apply orb_false_iff in E. destruct E as (E1 & E2). lv_b2z.
+      pose proof (lv_space_ext k st c_IKCP_OVERHEAD Hc) as Hx.
+      destruct (IH h _ h' st' Hf (proj1 Hx)) as (Hx2 & Hsh & Hall & Hlast).
+      split; [eapply lv_ext_trans; eassumption|]. split; [exact Hsh|]. split.
+      * intros sn ts [Heq|Hin] Hge.
+        { inversion Heq; subst sn ts. lia. }
+        exact (Hall sn ts Hin Hge).
+      * intros sn ts l Hl. destruct l as [|p l'].
+        { cbn [app] in Hl. inversion Hl; subst t. discriminate. }
+        cbn [app] in Hl. inversion Hl as [[Hp Ht]]. exact (Hlast sn ts l' Ht).
+Qed.
+
+(* ---- phase 3 ---- *)
+Lemma lv_ph3_track k2 h1 st flag c st' :
+  lv_ph3 k2 h1 st flag c = Ok st' -> lv_cur_ok st ->
+  lv_ext st st' /\ (Z.land (probe k2) flag <> 0 -> lv_has st' (lv_hdr h1 c)).
+Proof.
+  unfold lv_ph3. intros H Hc. destruct (Z.land (probe k2) flag =? 0) eqn:E; cbn [negb] in H; lv_b2z.
+  - inversion H; subst st'. split; [apply lv_ext_refl; exact Hc|]. intros Hn; contradiction.
+  - destruct (lv_space_write_ext k2 st c_IKCP_OVERHEAD _ st' Hc H) as (Hx & Hh).
+    split; [exact Hx|]. intros _; exact Hh.
+Qed.
+
+(* ---- phase 5 ---- *)
+(* the decision part of flush_seg *)
+Definition lv_decide (k : kcp) (resent newsegs now : Z) (s : seg) (a : fl) : bool * Z * Z * Z * fl :=
+  if s_xmit s =? 0 then
+    (true, rx_rto k, u32 (now + rx_rto k), s_fastack s, a)
+  else if (s_fastack s >=? resent) && negb (s_fastack s =? 4294967295) then
+    (true, rx_rto k, u32 (now + rx_rto k), 4294967295,
+     mkFl (f_st a) (f_change a + 1) (f_lost a) (f_fast a + 1) (f_early a) (f_next a) (f_dead a))
+  else if (s_fastack s >? 0) && negb (s_fastack s =? 4294967295) && (newsegs =? 0) then
+    (true, rx_rto k, u32 (now + rx_rto k), 4294967295,
+     mkFl (f_st a) (f_change a + 1) (f_lost a) (f_fast a) (f_early a + 1) (f_next a) (f_dead a))
+  else if itimediff now (s_resendts s) >=? 0 then
+    let rto := if nodelay k =? 0 then u32 (s_rto s + rx_rto k) else u32 (s_rto s + rx_rto k / 2) in
+    (true, rto, u32 (now + rto), 0,
+     mkFl (f_st a) (f_change a) (f_lost a + 1) (f_fast a) (f_early a) (f_next a) (f_dead a))
+  else (false, s_rto s, s_resendts s, s_fastack s, a).
+
+Definition lv_finish (now : Z) (s' : seg) (a' : fl) : res (seg * fl) :=
+  let d := itimediff (s_resendts s') now in
+  let nx := if (d >? 0) && (d <? f_next a') then d else f_next a' in
+  Ok (s', mkFl (f_st a') (f_change a') (f_lost a') (f_fast a') (f_early a') nx (f_dead a')).
+
+(* the segment put on the wire *)
+Definition lv_sent (h : seg) (now : Z) (s : seg) (rto rts fa : Z) : seg :=
+  mkSeg (s_conv s) (s_cmd s) (s_frg s) (s_wnd h) now (s_sn s) (s_una h)
+        rto (u32 (s_xmit s + 1)) rts fa (s_acked s) (s_data s).
+
+Definition lv_kept (s : seg) (rto rts fa : Z) : seg :=
+  mkSeg (s_conv s) (s_cmd s) (s_frg s) (s_wnd s) (s_ts s) (s_sn s) (s_una s)
+        rto (s_xmit s) rts fa (s_acked s) (s_data s).
+
+Lemma lv_flush_seg_unfold k h resent newsegs now s a :
+  flush_seg k h resent newsegs now s a =
+  if s_acked s =? 1 then Ok (s, a)
+  else
+    let '(needsend, rto, rts, fa, a1) := lv_decide k resent newsegs now s a in
+    if needsend then
+      match stage_write k (make_space k (f_st a1) (c_IKCP_OVERHEAD + blen (s_data s))) (lv_sent h now s rto rts fa) with
+      | Panic w => Panic w
+      | Ok st2 =>
+          lv_finish now (lv_sent h now s rto rts fa)
+            (mkFl st2 (f_change a1) (f_lost a1) (f_fast a1) (f_early a1) (f_next a1)
+                  ((u32 (s_xmit s + 1) >=? dead_link k) || f_dead a1))
+      end
+    else lv_finish now (lv_kept s rto rts fa) a1.
+Proof.
+  unfold flush_seg, lv_decide, lv_finish, lv_sent, lv_kept.
+  destruct (s_acked s =? 1); [reflexivity|].
+  destruct (s_xmit s =? 0); [reflexivity|].
+  destruct ((s_fastack s >=? resent) && negb (s_fastack s =? 4294967295)); [reflexivity|].
+  destruct ((s_fastack s >? 0) && negb (s_fastack s =? 4294967295) && (newsegs =? 0)); [reflexivity|].
+  destruct (itimediff now (s_resendts s) >=? 0); reflexivity.
+Qed.
+
+(* facts about the decision *)
+Lemma lv_decide_st k resent newsegs now s a ns rto rts fa a1 :
+  lv_decide k resent newsegs now s a = (ns, rto, rts, fa, a1) -> f_st a1 = f_st a /\ f_dead a1 = f_dead a.
+Proof.
+  unfold lv_decide. intros H.
+  destruct (s_xmit s =? 0); [inversion H; subst; split; reflexivity|].
+  destruct ((s_fastack s >=? resent) && negb (s_fastack s =? 4294967295)); [inversion H; subst; split; reflexivity|].
+  destruct ((s_fastack s >? 0) && negb (s_fastack s =? 4294967295) && (newsegs =? 0)); [inversion H; subst; split; reflexivity|].
+  destruct (itimediff now (s_resendts s) >=? 0); inversion H; subst; split; reflexivity.
+Qed.
+
+Lemma lv_decide_due k resent newsegs now s a ns rto rts fa a1 :
+  lv_decide k resent newsegs now s a = (ns, rto, rts, fa, a1) ->
+  s_xmit s = 0 \/ itimediff now (s_resendts s) >= 0 -> ns = true.
+Proof.
+  unfold lv_decide. intros H Hd.
+  destruct (s_xmit s =? 0) eqn:E0; [inversion H; reflexivity|].
+  destruct ((s_fastack s >=? resent) && negb (s_fastack s =? 4294967295)); [inversion H; reflexivity|].
+  destruct ((s_fastack s >? 0) && negb (s_fastack s =? 4294967295) && (newsegs =? 0)); [inversion H; reflexivity|].
+  destruct (itimediff now (s_resendts s) >=? 0) eqn:E3; [inversion H; reflexivity|].
+  lv_b2z. destruct Hd as [Hd|Hd]; [contradiction|lia].
+Qed.
+
+(* what flush_seg keeps of a segment *)
+Definition lv_seg_rel (s s' : seg) : Prop :=
+  s_sn s' = s_sn s /\ s_data s' = s_data s /\ s_frg s' = s_frg s /\ s_conv s' = s_conv s /\
+  s_cmd s' = s_cmd s /\ s_acked s' = s_acked s.
+
+Lemma lv_seg_track k h resent newsegs now s a s' a' :
+  flush_seg k h resent newsegs now s a = Ok (s', a') -> lv_cur_ok (f_st a) ->
+  lv_ext (f_st a) (f_st a') /\ lv_seg_rel s s' /\
+  (s_acked s <> 1 -> s_xmit s = 0 \/ itimediff now (s_resendts s) >= 0 ->
+     exists w, lv_has (f_st a') w /\ s_cmd w = s_cmd s /\ s_sn w = s_sn s /\ s_frg w = s_frg s /\
+               s_data w = s_data s).
+Proof.
+  rewrite lv_flush_seg_unfold. intros H Hc.
+  destruct (s_acked s =? 1) eqn:Ea; lv_b2z.
+  { inversion H; subst s' a'. split; [apply lv_ext_refl; exact Hc|]. split; [repeat split|].
+    intros Hn; contradiction. }
+  destruct (lv_decide k resent newsegs now s a) as [[[[ns rto] rts] fa] a1] eqn:D.
+  destruct (lv_decide_st _ _ _ _ _ _ _ _ _ _ _ D) as (Dst & _).
+  pose proof (lv_decide_due _ _ _ _ _ _ _ _ _ _ _ D) as Ddue.
+  destruct ns.
+  - destruct (stage_write k _ _) as [st2|w] eqn:Ew; [|discriminate].
+    unfold lv_finish in H. inversion H; subst s' a'. cbn [f_st].
+    rewrite Dst in Ew. destruct (lv_space_write_ext k (f_st a) _ _ st2 Hc Ew) as (Hx & Hh).
+    split; [exact Hx|]. split; [unfold lv_seg_rel, lv_sent; lv_segf; repeat split|].
+    intros _ _. eexists. split; [exact Hh|]. unfold lv_sent; lv_segf. repeat split.
+  - unfold lv_finish in H. inversion H; subst s' a'. cbn [f_st]. rewrite Dst.
+    split; [apply lv_ext_refl; exact Hc|]. split; [unfold lv_seg_rel, lv_kept; lv_segf; repeat split|].
+    intros _ Hd. specialize (Ddue Hd). discriminate.
+Qed.
+
+Lemma lv_segs_track k h resent newsegs now : forall l a l' a',
+  flush_segs k h resent newsegs now l a = Ok (l', a') -> lv_cur_ok (f_st a) ->
+  lv_ext (f_st a) (f_st a') /\ Forall2 lv_seg_rel l l' /\
+  (forall s, In s l -> s_acked s <> 1 -> s_xmit s = 0 \/ itimediff now (s_resendts s) >= 0 ->
+     exists w, lv_has (f_st a') w /\ s_cmd w = s_cmd s /\ s_sn w = s_sn s /\ s_frg w = s_frg s /\
+               s_data w = s_data s).
+Proof.
+  induction l as [|s t IH]; intros a l' a' H Hc; cbn [flush_segs] in H.
+  - inversion H; subst. split; [apply lv_ext_refl; exact Hc|]. split; [constructor|]. intros s [].
+  - destruct (flush_seg k h resent newsegs now s a) as [[s1 a1]|w] eqn:E1; [|discriminate].
+    destruct (flush_segs k h resent newsegs now t a1) as [[t1 a2]|w] eqn:E2; [|discriminate].
+    inversion H; subst l' a'.
+    destruct (lv_seg_track _ _ _ _ _ _ _ _ _ E1 Hc) as (Hx1 & Hr1 & Hw1).
+    destruct (IH _ _ _ E2 (proj1 Hx1)) as (Hx2 & Hr2 & Hw2).
+    split; [eapply lv_ext_trans; eassumption|]. split; [constructor; assumption|].
+    intros x [Heq|Hin] Hna Hd.
+    + subst x. destruct (Hw1 Hna Hd) as (w & Hh & Hp). exists w. split; [apply (proj2 Hx2); exact Hh|exact Hp].
+    + exact (Hw2 x Hin Hna Hd).
+Qed.
+
+Lemma lv_rel_length l l' : Forall2 lv_seg_rel l l' -> qlen l' = qlen l.
+Proof.
+  induction 1 as [|s s' t t' Hr Ht IH]; [reflexivity|]. rewrite !qlen_cons, IH. reflexivity.
+Qed.
+
+(* ------------------------------------------------------------------ *)
+(* 3. flush as a whole                                                 *)
+(* ------------------------------------------------------------------ *)
+Lemma lv_seg_rel_refl s : lv_seg_rel s s.
+Proof. repeat split. Qed.
+
+Lemma lv_seg_rel_refl_list l : Forall2 lv_seg_rel l l.
+Proof. induction l; constructor; [apply lv_seg_rel_refl|assumption]. Qed.
+
+Lemma lv_same_hdr_refl h : lv_same_hdr h h.
+Proof. repeat split. Qed.
+
+Lemma lv_ph1_track k ft h1 st1 k1 :
+  lv_ph1 k ft = Ok (h1, st1, k1) ->
+  lv_cur_ok st1 /\ lv_same_hdr (lv_h0 k) h1 /\
+  (exists al, k1 = set_acklist k al /\ (ft = FLUSH_FULL \/ ft = FLUSH_ACKONLY -> al = [])) /\
+  (ft = FLUSH_FULL \/ ft = FLUSH_ACKONLY ->
+     (forall sn ts, In (sn, ts) (acklist k) -> itimediff sn (rcv_nxt k) >= 0 ->
+                    exists s, lv_has st1 s /\ lv_ackseg (lv_h0 k) sn ts s) /\
+     (forall sn ts l, acklist k = l ++ [(sn, ts)] -> exists s, lv_has st1 s /\ lv_ackseg (lv_h0 k) sn ts s)).
+Proof.
+  intros H. pose proof (lv_ph1_shape k ft h1 st1 k1 H) as Hshape.
+  unfold lv_ph1 in H. destruct ((ft =? FLUSH_ACKONLY) || (ft =? FLUSH_FULL)) eqn:E.
+  - destruct (flush_acks k (lv_h0 k) (mkStage [] []) (acklist k)) as [[h st]|w] eqn:Ef; [|discriminate].
+    inversion H; subst h st k1.
+    destruct (lv_acks_track k _ _ _ _ _ Ef lv_stage0_ok) as (Hx & Hsh & Hall & Hlast).
+    split; [exact (proj1 Hx)|]. split; [exact Hsh|]. split; [exact Hshape|].
+    intros _. split; assumption.
+  - inversion H; subst h1 st1 k1. split; [exact lv_stage0_ok|]. split; [apply lv_same_hdr_refl|].
+    split; [exact Hshape|].
+    apply orb_false_iff in E. destruct E as (E1 & E2). lv_b2z. intros [F|F]; contradiction.
+Qed.
+
+Lemma lv_ph5_track k4 h1 ft ns now st3 sb' a :
+  lv_ph5 k4 h1 ft ns now st3 = Ok (sb', a) -> lv_cur_ok st3 ->
+  lv_ext st3 (f_st a) /\ Forall2 lv_seg_rel (snd_buf k4) sb' /\
+  (ft = FLUSH_FULL -> forall s, In s (snd_buf k4) -> s_acked s <> 1 ->
+     s_xmit s = 0 \/ itimediff now (s_resendts s) >= 0 ->
+     exists w, lv_has (f_st a) w /\ s_cmd w = s_cmd s /\ s_sn w = s_sn s /\ s_frg w = s_frg s /\
+               s_data w = s_data s).
+Proof.
+  unfold lv_ph5. cbv zeta. intros H Hc. destruct (ft =? FLUSH_FULL) eqn:E; lv_b2z.
+  - destruct (lv_segs_track _ _ _ _ _ _ _ _ _ H Hc) as (Hx & Hr & Hw). cbn [f_st] in Hx.
+    split; [exact Hx|]. split; [exact Hr|]. intros _. exact Hw.
+  - inversion H; subst sb' a. cbn [f_st]. split; [apply lv_ext_refl; exact Hc|].
+    split; [apply lv_seg_rel_refl_list|]. intros F; contradiction.
+Qed.
+
+Lemma lv_ph4_frame k k' ft :
+  snd_queue k' = snd_queue k -> snd_buf k' = snd_buf k -> conv k' = conv k ->
+  snd_una k' = snd_una k -> snd_nxt k' = snd_nxt k -> snd_wnd k' = snd_wnd k ->
+  rmt_wnd k' = rmt_wnd k -> nocwnd k' = nocwnd k -> cwnd k' = cwnd k ->
+  lv_ph4 k' ft = lv_ph4 k ft.
+Proof.
+  intros E1 E2 E3 E4 E5 E6 E7 E8 E9. unfold lv_ph4, lv_cw.
+  rewrite E1, E2, E3, E4, E5, E6, E7, E8, E9. reflexivity.
+Qed.
+
+Definition lv_due (now : Z) (s : seg) : Prop :=
+  s_acked s <> 1 /\ (s_xmit s = 0 \/ itimediff now (s_resendts s) >= 0).
+
+Definition lv_pushed (o : list bytes) (s : seg) : Prop :=
+  exists w, lv_emits o w /\ s_cmd w = s_cmd s /\ s_sn w = s_sn s /\ s_frg w = s_frg s /\ s_data w = s_data s.
+
+Lemma lv_flush_spec k ft now k' nx o :
+  flush k ft now = Ok (k', nx, o) ->
+  exists h1 sq sb nxt ns sb',
+    lv_same_hdr (lv_h0 k) h1 /\
+    ((ft = FLUSH_FULL \/ ft = FLUSH_ACKONLY) ->
+       acklist k' = [] /\
+       (forall sn ts, In (sn, ts) (acklist k) -> itimediff sn (rcv_nxt k) >= 0 ->
+                      exists s, lv_emits o s /\ lv_ackseg (lv_h0 k) sn ts s) /\
+       (forall sn ts l, acklist k = l ++ [(sn, ts)] ->
+                      exists s, lv_emits o s /\ lv_ackseg (lv_h0 k) sn ts s)) /\
+    (Z.land (probe (lv_ph2 k now)) c_IKCP_ASK_SEND <> 0 -> lv_emits o (lv_hdr h1 c_IKCP_CMD_WASK)) /\
+    (Z.land (probe (lv_ph2 k now)) c_IKCP_ASK_TELL <> 0 -> lv_emits o (lv_hdr h1 c_IKCP_CMD_WINS)) /\
+    lv_ph4 k ft = (sq, sb, nxt, ns) /\
+    Forall2 lv_seg_rel sb sb' /\
+    (ft = FLUSH_FULL -> forall s, In s sb -> lv_due now s -> lv_pushed o s) /\
+    probe k' = 0 /\ probe_wait k' = probe_wait (lv_ph2 k now) /\ ts_probe k' = ts_probe (lv_ph2 k now) /\
+    snd_queue k' = sq /\ snd_buf k' = sb' /\ snd_nxt k' = nxt.
+Proof.
+  intros H.
+  destruct (lv_invert _ _ _ _ _ _ H)
+    as (h1 & st1 & k1 & st2 & st3 & sq & sb & nxt & ns & sb' & a & E1 & E2 & E3 & E4 & E5 & Ek & Enx & Eo).
+  destruct (lv_ph1_track _ _ _ _ _ E1) as (Hc1 & Hsh & (al & Hk1 & Hal) & Hacks).
+  subst k1. rewrite lv_ph2_acklist in *.
+  destruct (lv_ph3_track _ _ _ _ _ _ E2 Hc1) as (Hx2 & Hwask).
+  destruct (lv_ph3_track _ _ _ _ _ _ E3 (proj1 Hx2)) as (Hx3 & Hwins).
+  destruct (lv_ph5_track _ _ _ _ _ _ _ _ E5 (proj1 Hx3)) as (Hx5 & Hrel & Hpush).
+  assert (Hfin : forall s, lv_has st1 s -> lv_emits o s).
+  { intros s Hs. subst o. apply lv_buffer_emits. apply (proj2 Hx5), (proj2 Hx3), (proj2 Hx2). exact Hs. }
+  assert (Hfin2 : forall s, lv_has st2 s -> lv_emits o s).
+  { intros s Hs. subst o. apply lv_buffer_emits. apply (proj2 Hx5), (proj2 Hx3). exact Hs. }
+  assert (Hfin3 : forall s, lv_has st3 s -> lv_emits o s).
+  { intros s Hs. subst o. apply lv_buffer_emits. apply (proj2 Hx5). exact Hs. }
+  assert (Hfin5 : forall s, lv_has (f_st a) s -> lv_emits o s).
+  { intros s Hs. subst o. apply lv_buffer_emits. exact Hs. }
+  (* the final state, field by field *)
+  destruct (lv_ph6_shape (lv_k5 (lv_k4 (set_probe_flags (set_acklist (lv_ph2 k now) al) 0) sq sb nxt) sb' a) a
+              (lv_cw (set_probe_flags (set_acklist (lv_ph2 k now) al) 0))
+              (lv_resent (lv_k4 (set_probe_flags (set_acklist (lv_ph2 k now) al) 0) sq sb nxt)))
+    as (sst & cwn & inc & E6).
+  rewrite E6 in Ek. clear E6.
+  destruct (lv_k5_shape (lv_k4 (set_probe_flags (set_acklist (lv_ph2 k now) al) 0) sq sb nxt) sb' a) as (stt & E5').
+  rewrite E5' in Ek. clear E5'. unfold lv_k4 in Ek.
+  destruct (lv_ph2_shape k now) as (pp & ptsp & ppw & Eph2).
+  exists h1, sq, sb, nxt, ns, sb'.
+  split; [exact Hsh|].
+  split.
+  { intros Hft. destruct (Hacks Hft) as (Hall & Hlast). specialize (Hal Hft). subst al.
+    split; [subst k'; reflexivity|]. split.
+    - intros sn ts Hin Hge. destruct (Hall sn ts Hin Hge) as (s & Hs & Ha). exists s. split; [apply Hfin; exact Hs|exact Ha].
+    - intros sn ts l Hl. destruct (Hlast sn ts l Hl) as (s & Hs & Ha). exists s. split; [apply Hfin; exact Hs|exact Ha]. }
+  split.
+  { intros Hn. apply Hfin2. apply Hwask. exact Hn. }
+  split.
+  { intros Hn. apply Hfin3. apply Hwins. exact Hn. }
+  split.
+  { rewrite <- E4. symmetry. apply lv_ph4_frame; rewrite Eph2; reflexivity. }
+  split.
+  { exact Hrel. }
+  split.
+  { intros Hft s Hin (Hna & Hd). destruct (Hpush Hft s Hin Hna Hd) as (w & Hw & Hp).
+    exists w. split; [apply Hfin5; exact Hw|exact Hp]. }
+  subst k'. ksimpl. repeat split; reflexivity.
+Qed.
+
+(* ------------------------------------------------------------------ *)
+(* 4. wire round trip, and input_seg on an encoded segment             *)
+(* ------------------------------------------------------------------ *)
+Lemma lv_firstn_len_app (T : Type) (A B : list T) : firstn (length A) (A ++ B) = A.
+Proof. induction A as [|x A IH]; cbn [length firstn app]; [destruct B; reflexivity|rewrite IH; reflexivity]. Qed.
+
+Lemma lv_skipn_len_app (T : Type) (A B : list T) : skipn (length A) (A ++ B) = B.
+Proof. induction A as [|x A IH]; cbn [length skipn app]; [reflexivity|exact IH]. Qed.
+
+Lemma lv_take_app (a b : bytes) : take (blen a) (a ++ b) = a.
+Proof. unfold take, blen. rewrite Nat2Z.id. apply lv_firstn_len_app. Qed.
+
+Lemma lv_drop_app (a b : bytes) : drop (blen a) (a ++ b) = b.
+Proof. unfold drop, blen. rewrite Nat2Z.id. apply lv_skipn_len_app. Qed.
+
+Lemma lv_skip6 s rest :
+  skipn 6 (encode_seg s ++ rest) =
+  le16 (s_wnd s) ++ (le32 (s_ts s) ++ (le32 (s_sn s) ++ (le32 (s_una s) ++
+     (le32 (blen (s_data s)) ++ (s_data s ++ rest))))).
+Proof. reflexivity. Qed.
+Lemma lv_skip8 s rest :
+  skipn 8 (encode_seg s ++ rest) =
+  le32 (s_ts s) ++ (le32 (s_sn s) ++ (le32 (s_una s) ++ (le32 (blen (s_data s)) ++ (s_data s ++ rest)))).
+Proof. reflexivity. Qed.
+Lemma lv_skip12 s rest :
+  skipn 12 (encode_seg s ++ rest) =
+  le32 (s_sn s) ++ (le32 (s_una s) ++ (le32 (blen (s_data s)) ++ (s_data s ++ rest))).
+Proof. reflexivity. Qed.
+Lemma lv_skip16 s rest :
+  skipn 16 (encode_seg s ++ rest) = le32 (s_una s) ++ (le32 (blen (s_data s)) ++ (s_data s ++ rest)).
+Proof. reflexivity. Qed.
+Lemma lv_skip20 s rest :
+  skipn 20 (encode_seg s ++ rest) = le32 (blen (s_data s)) ++ (s_data s ++ rest).
+Proof. reflexivity. Qed.
+Lemma lv_skip24 s rest : skipn 24 (encode_seg s ++ rest) = s_data s ++ rest.
+Proof. reflexivity. Qed.
+Lemma lv_skip0 s rest :
+  encode_seg s ++ rest = le32 (s_conv s) ++ (s_cmd s :: s_frg s :: skipn 6 (encode_seg s ++ rest)).
+Proof. reflexivity. Qed.
+
+(* the header decoding of input_seg on an encoded well-formed segment *)
+Lemma lv_decode_encode s rest : seg_wf s ->
+  let data := encode_seg s ++ rest in
+  rd32 data = s_conv s /\ nth 4 data 0 = s_cmd s /\ nth 5 data 0 = s_frg s /\
+  rd16 (skipn 6 data) = s_wnd s /\ rd32 (skipn 8 data) = s_ts s /\
+  rd32 (skipn 12 data) = s_sn s /\ rd32 (skipn 16 data) = s_una s /\
+  rd32 (skipn 20 data) = blen (s_data s) /\
+  skipn 24 data = s_data s ++ rest.
+Proof.
+  intros (Wc & Wcmd & Wfrg & Wwnd & Wts & Wsn & Wuna & Wd & Wlen). cbv zeta.
+  assert (Hl : 0 <= blen (s_data s) < W32).
+  { pose proof (blen_nonneg (s_data s)). unfold c_mtuLimit, W32 in *. lia. }
+  split; [rewrite lv_skip0; apply rd32_le32; exact Wc|].
+  split; [reflexivity|]. split; [reflexivity|].
+  split; [rewrite lv_skip6; apply rd16_le16; exact Wwnd|].
+  split; [rewrite lv_skip8; apply rd32_le32; exact Wts|].
+  split; [rewrite lv_skip12; apply rd32_le32; exact Wsn|].
+  split; [rewrite lv_skip16; apply rd32_le32; exact Wuna|].
+  split; [rewrite lv_skip20; apply rd32_le32; exact Hl|].
+  reflexivity.
+Qed.
+
+(* input_seg after the header has been decoded and accepted *)
+Definition lv_in_tail (a : inp) (s : seg) (rest : bytes) (regular : bool) : res (inp * bytes) + Z :=
+  let k := i_k a in
+  let k := if regular then set_rmt_wnd k (s_wnd s) else k in
+  let '(k, cnt) := parse_una k (s_una s) in
+  let fl1 := (cnt >? 0) || i_flush a in
+  let k := shrink_buf k in
+  if s_cmd s =? c_IKCP_CMD_ACK then
+    let k := parse_ack k (s_sn s) in
+    let '(k, f) := parse_fastack k (s_sn s) (s_ts s) in
+    let k := shrink_buf k in
+    inl (Ok (mkInp k (s_ts s) true (f || fl1), rest))
+  else if s_cmd s =? c_IKCP_CMD_PUSH then
+    if itimediff (s_sn s) (u32 (rcv_nxt k + rcv_wnd k)) <? 0 then
+      let k := set_acklist k (acklist k ++ [(s_sn s, s_ts s)]) in
+      if itimediff (s_sn s) (rcv_nxt k) >=? 0 then
+        match parse_data k (mkSeg (s_conv s) (s_cmd s) (s_frg s) (s_wnd s) (s_ts s) (s_sn s) (s_una s)
+                                  0 0 0 0 0 (s_data s)) with
+        | Panic w => inl (Panic w)
+        | Ok (k, _) => inl (Ok (mkInp k (i_latest a) (i_rtt a) fl1, rest))
+        end
+      else inl (Ok (mkInp k (i_latest a) (i_rtt a) fl1, rest))
+    else inl (Ok (mkInp k (i_latest a) (i_rtt a) fl1, rest))
+  else if s_cmd s =? c_IKCP_CMD_WASK then
+    inl (Ok (mkInp (set_probe_flags k (Z.lor (probe k) c_IKCP_ASK_TELL)) (i_latest a) (i_rtt a) fl1, rest))
+  else inl (Ok (mkInp k (i_latest a) (i_rtt a) fl1, rest)).
+
+Lemma lv_input_seg_eq a s rest regular :
+  seg_wf s -> s_conv s = conv (i_k a) -> cmd_ok (s_cmd s) ->
+  input_seg a (encode_seg s ++ rest) regular = lv_in_tail a s rest regular.
+Proof.
+  intros Hwf Hcv Hcmd.
+  destruct (lv_decode_encode s rest Hwf) as (D1 & D2 & D3 & D4 & D5 & D6 & D7 & D8 & D9).
+  pose proof Hwf as (_ & _ & _ & _ & _ & _ & _ & _ & Wlen).
+  unfold input_seg, lv_in_tail. cbv zeta.
+  rewrite D1, D2, D3, D4, D5, D6, D7, D8, D9.
+  rewrite lv_take_app, lv_drop_app.
+  rewrite Hcv, Z.eqb_refl. cbn [negb].
+  assert (E1 : (blen (s_data s ++ rest) <? blen (s_data s)) || (blen (s_data s) >? c_mtuLimit) = false).
+  { apply orb_false_iff. rewrite blen_app. pose proof (blen_nonneg rest). split.
+    - apply Z.ltb_ge. lia.
+    - rewrite Z.gtb_ltb. apply Z.ltb_ge. exact Wlen. }
+  rewrite E1.
+  assert (E2 : negb ((s_cmd s =? c_IKCP_CMD_PUSH) || (s_cmd s =? c_IKCP_CMD_ACK) ||
+                     (s_cmd s =? c_IKCP_CMD_WASK) || (s_cmd s =? c_IKCP_CMD_WINS)) = false).
+  { destruct Hcmd as [E|[E|[E|E]]]; rewrite E; reflexivity. }
+  rewrite E2. rewrite <- Hcv. reflexivity.
+Qed.
+
+(* ---- what the acknowledgement bookkeeping leaves alone ---- *)
+Definition lv_fr (k : kcp) :=
+  (conv k, rcv_nxt k, rcv_wnd k, rmt_wnd k, acklist k, probe k, (rcv_queue k, rcv_buf k)).
+
+Lemma lv_fr_parse_una k una : lv_fr (fst (parse_una k una)) = lv_fr k.
+Proof. unfold parse_una. destruct (una_walk una (snd_buf k)) as [l c]. reflexivity. Qed.
+
+Lemma lv_fr_shrink_buf k : lv_fr (shrink_buf k) = lv_fr k.
+Proof.
+  unfold shrink_buf. cbv zeta.
+  destruct (snd_buf (set_snd_buf k (drop_acked (snd_buf k)))); reflexivity.
+Qed.
+
+Lemma lv_fr_parse_ack k sn : lv_fr (parse_ack k sn) = lv_fr k.
+Proof.
+  unfold parse_ack.
+  destruct ((itimediff sn (snd_una k) <? 0) || (itimediff sn (snd_nxt k) >=? 0)); reflexivity.
+Qed.
+
+Lemma lv_fr_parse_fastack k sn ts : lv_fr (fst (parse_fastack k sn ts)) = lv_fr k.
+Proof.
+  unfold parse_fastack.
+  destruct ((itimediff sn (snd_una k) <? 0) || (itimediff sn (snd_nxt k) >=? 0)); [reflexivity|].
+  destruct (fastack_walk sn ts (fastresend k) (snd_buf k)) as [l f]. reflexivity.
+Qed.
+
+Lemma lv_parse_data_acklist k s k' f : parse_data k s = Ok (k', f) -> acklist k' = acklist k.
+Proof.
+  unfold parse_data. intros H.
+  destruct ((itimediff (s_sn s) (u32 (rcv_nxt k + rcv_wnd k)) >=? 0) || (itimediff (s_sn s) (rcv_nxt k) <? 0)).
+  { inversion H; reflexivity. }
+  destruct (has_sn (s_sn s) (rcv_buf k)).
+  { inversion H; subst. apply (do_move_ready_fields k). }
+  destruct (blen (s_data s) >? c_mtuLimit); [discriminate|].
+  inversion H; subst. destruct (do_move_ready_fields (set_rcv_buf k (insert_seg s (rcv_buf k)))) as
+    (_ & _ & _ & _ & _ & _ & _ & _ & _ & _ & _ & _ & _ & _ & Ha & _). rewrite Ha. reflexivity.
+Qed.
+
+(* the state the command-specific part of input_seg starts from *)
+Definition lv_pre (a : inp) (s : seg) (regular : bool) : kcp :=
+  shrink_buf (fst (parse_una (if regular then set_rmt_wnd (i_k a) (s_wnd s) else i_k a) (s_una s))).
+
+Lemma lv_fr_pre a s regular :
+  lv_fr (lv_pre a s regular) = lv_fr (if regular then set_rmt_wnd (i_k a) (s_wnd s) else i_k a).
+Proof. unfold lv_pre. rewrite lv_fr_shrink_buf, lv_fr_parse_una. reflexivity. Qed.
+
+Lemma lv_in_tail_pre a s rest regular :
+  lv_in_tail a s rest regular =
+  let k := lv_pre a s regular in
+  let fl1 := (snd (parse_una (if regular then set_rmt_wnd (i_k a) (s_wnd s) else i_k a) (s_una s)) >? 0) || i_flush a in
+  if s_cmd s =? c_IKCP_CMD_ACK then
+    let k := parse_ack k (s_sn s) in
+    let '(k, f) := parse_fastack k (s_sn s) (s_ts s) in
+    let k := shrink_buf k in
+    inl (Ok (mkInp k (s_ts s) true (f || fl1), rest))
+  else if s_cmd s =? c_IKCP_CMD_PUSH then
+    if itimediff (s_sn s) (u32 (rcv_nxt k + rcv_wnd k)) <? 0 then
+      let k := set_acklist k (acklist k ++ [(s_sn s, s_ts s)]) in
+      if itimediff (s_sn s) (rcv_nxt k) >=? 0 then
+        match parse_data k (mkSeg (s_conv s) (s_cmd s) (s_frg s) (s_wnd s) (s_ts s) (s_sn s) (s_una s)
+                                  0 0 0 0 0 (s_data s)) with
+        | Panic w => inl (Panic w)
+        | Ok (k, _) => inl (Ok (mkInp k (i_latest a) (i_rtt a) fl1, rest))
+        end
+      else inl (Ok (mkInp k (i_latest a) (i_rtt a) fl1, rest))
+    else inl (Ok (mkInp k (i_latest a) (i_rtt a) fl1, rest))
+  else if s_cmd s =? c_IKCP_CMD_WASK then
+    inl (Ok (mkInp (set_probe_flags k (Z.lor (probe k) c_IKCP_ASK_TELL)) (i_latest a) (i_rtt a) fl1, rest))
+  else inl (Ok (mkInp k (i_latest a) (i_rtt a) fl1, rest)).
+Proof.
+  unfold lv_in_tail, lv_pre. cbv zeta.
+  destruct (parse_una (if regular then set_rmt_wnd (i_k a) (s_wnd s) else i_k a) (s_una s)) as [k1 cnt].
+  reflexivity.
 Qed.
